@@ -96,13 +96,18 @@ def _helper_read_frame(lit: LineIterator) -> tuple:
         resnums.append(int(line[:5]))
         resnames.append(line[5:10].split()[-1])
         attypes.append(line[10:15].split()[-1])
-        words = line[22:].split()
-        pos[i, 0] = float(words[0])
-        pos[i, 1] = float(words[1])
-        pos[i, 2] = float(words[2])
-        vel[i, 0] = float(words[3])
-        vel[i, 1] = float(words[4])
-        vel[i, 2] = float(words[5])
+        # Positions and (optional) velocities are fixed-width fields starting at column 21.
+        # The number of decimals may vary: the field width is the distance between two
+        # decimal points (8 in the standard format), so neighboring fields may touch.
+        fields = line[20:].rstrip()
+        idot0 = fields.find(".")
+        idot1 = fields.find(".", idot0 + 1)
+        width = idot1 - idot0 if (idot0 >= 0 and idot1 > idot0) else 8
+        for j in range(3):
+            pos[i, j] = float(fields[j * width : (j + 1) * width])
+        if len(fields) > 3 * width:
+            for j in range(3):
+                vel[i, j] = float(fields[(j + 3) * width : (j + 4) * width])
     pos *= nanometer  # atom coordinates are in nanometers
     vel *= nanometer / picosecond
     # Read the cell line
